@@ -31,7 +31,7 @@ type PathCase struct {
 	Kind     string `json:"kind"` // payload kind for compressed messages
 }
 
-var pathNames = []string{"nb", "blocking-parser", "blocking-transfer", "std-readloop", "std-transfer"}
+var pathNames = []string{"nb", "blocking-parser", "blocking-transfer", "std-readloop", "std-transfer", "std-handleread"}
 
 func runPath(c PathCase) vlib.Result {
 	res := vlib.Result{Classes: []string{fmt.Sprintf("pathcell=%s/tls=%v", c.Path, c.TLS)}}
@@ -48,8 +48,14 @@ func runPath(c PathCase) vlib.Result {
 		mu.Unlock()
 	})
 	transfer := c.Path == "blocking-transfer" || c.Path == "std-transfer"
+	manualRead := c.Path == "std-handleread"
 	handler := http.HandlerFunc(func(w http.ResponseWriter, r *http.Request) {
-		if transfer {
+		if manualRead {
+			// the application starts the read loop itself, with a buffer size of its choice
+			if wc, err := u.UpgradeWithoutHandlingReadForConnFromSTDServer(w, r, nil); err == nil {
+				go wc.HandleRead(61)
+			}
+		} else if transfer {
 			_, _ = u.UpgradeAndTransferConnToPoller(w, r, nil)
 		} else {
 			_, _ = u.Upgrade(w, r, nil)
@@ -57,7 +63,7 @@ func runPath(c PathCase) vlib.Result {
 	})
 	conf := nbhttp.Config{Network: "tcp", NPoller: 2, Handler: handler}
 	vlib.ApplyHTTPMode(&conf, c.Mode)
-	std := c.Path == "std-readloop" || c.Path == "std-transfer"
+	std := c.Path == "std-readloop" || c.Path == "std-transfer" || c.Path == "std-handleread"
 	if !std {
 		if c.TLS {
 			conf.AddrsTLS = []string{"127.0.0.1:0"}
@@ -236,7 +242,7 @@ func pathCells() []PathCase {
 	var out []PathCase
 	for _, p := range pathNames {
 		for _, tl := range []bool{false, true} {
-			if tl && (p == "std-readloop" || p == "std-transfer") {
+			if tl && (p == "std-readloop" || p == "std-transfer" || p == "std-handleread") {
 				continue
 			}
 			out = append(out, PathCase{Path: p, TLS: tl, Mode: vlib.ModeLT, L: 1000, Sizes: []int{10, 1000, 1001, 5}, Kind: "ascii"})
@@ -249,7 +255,7 @@ func pathCells() []PathCase {
 
 func genPath(t *rapid.T) PathCase {
 	c := PathCase{Path: rapid.SampledFrom(pathNames).Draw(t, "path"), Mode: rapid.SampledFrom(vlib.Modes).Draw(t, "mode")}
-	if c.Path != "std-readloop" && c.Path != "std-transfer" {
+	if c.Path != "std-readloop" && c.Path != "std-transfer" && c.Path != "std-handleread" {
 		c.TLS = rapid.Bool().Draw(t, "tls")
 	}
 	c.L = rapid.SampledFrom([]int{1, 125, 1000, 3000, 65536}).Draw(t, "limit")
